@@ -97,8 +97,25 @@ Fixpoint cert_loop (runs : list tool_result) : result bool :=
   end.
 
 (* [runs] = the tool's behaviour on the invocation made for each candidate
-   certificate, in order; [cert_valid] = cert_handler.verify_cert(last file) *)
+   certificate, in order; [cert_valid] = cert_handler.verify_cert(last file).
+   Today's library (sigver.py 1498-1527, after fix 0b54cc6b): no run verified =>
+   SignatureError WHATEVER only_valid_cert says (the parameter is still accepted
+   and no longer looked at); certificate validation is an additional requirement
+   on the certificate that verified, never a substitute *)
 Definition check_signature_runs (ncerts_zero : bool) (runs : list tool_result)
+           (only_valid_cert cert_valid : bool) : result unit :=
+  if ncerts_zero then Err (s2l "MissingKey") else
+  match cert_loop runs with
+  | Err e => Err e
+  | Ok verified =>
+      if verified then
+        if cert_valid then Ok tt else Err (s2l "CertificateError")
+      else Err (s2l "SignatureError")
+  end.
+
+(* the same BEFORE fix 0b54cc6b (F16): with only_valid_cert a valid last certificate
+   stood in for a signature that verifies under none *)
+Definition check_signature_runs_before_fix (ncerts_zero : bool) (runs : list tool_result)
            (only_valid_cert cert_valid : bool) : result unit :=
   if ncerts_zero then Err (s2l "MissingKey") else
   match cert_loop runs with
